@@ -43,8 +43,7 @@ PAULI = {
     "Y": np.array([[0, -1j], [1j, 0]], dtype=complex),
     "Z": np.array([[1, 0], [0, -1]], dtype=complex),
 }
-KEY_CT = "C07:coupled_transmon:len!=3"
-KEY_BH1 = "C07:bose_hubbard:len1"
+# D20 (coupled_transmon, fixed 201a5d0) and D21 (bose_hubbard length 1, fixed 522fc8a) are plain corpus cases now
 KEY_ID = "C07:identity:physdim"
 
 SPEC = {"n": 0, "bad": 0, "worst": 0.0, "detail": ""}
@@ -187,11 +186,8 @@ def gen(rng, tier):
     for _ in range(n_misc):
         yield {"kind": "ham", "builder": "generic", "L": rng.randrange(0, 7), "per": rng.random() < 0.5, "sub": sub()}
     for which in ("bh", "ct"):
-        for L in range(2, 7):
-            if which == "ct" and L != 3:
-                continue  # every other length is the registered finding (corpus)
+        for L in range(1, 8 if quick else 10):
             yield {"kind": "blk", "which": which, "L": L, "sub": sub()}
-        yield {"kind": "blk", "which": which, "L": 3, "sub": sub()}
     for _ in range(n_fsm):
         yield {"kind": "fsm", "sub": sub()}
     for _ in range(n_misc):
@@ -635,7 +631,6 @@ def run_blk(inp):
         refs_site = [[("id", eye), ("hloc", 0.5 * U * (n @ (n - eye)) + omega * n), ("adag", ad), ("a", a), ("-Jadag", -J * ad),
                       ("-Ja", -J * a)]] * L
         dims = [d] * L
-        key = KEY_BH1 if L == 1 else None
         try:
             href = bh_dense(L, d, omega, J, U)
             dense = mpo.to_matrix()
@@ -657,7 +652,6 @@ def run_blk(inp):
         rr = [("id", idr), ("hr", wr * nr), ("xr", a + a.conj().T)]
         refs_site = [rq if i % 2 == 0 else rr for i in range(L)]
         dims = [dq if i % 2 == 0 else dr for i in range(L)]
-        key = KEY_CT if L != 3 else None
         try:
             href = ct_dense(L, dq, dr, wq, wr, al, g)
             dense = mpo.to_matrix()
@@ -693,8 +687,6 @@ def run_blk(inp):
                     "nontrivial": impl not in ("err", "0.0")})
     c = {"req": None, "impl": None, "oracle": ok(probs, "matches the documented Hamiltonian"), "kind": "blk-dense",
          "sig": f"blkdense:{which}:{L}"}
-    if key and probs:
-        c["key"] = key
     out.append(c)
     return out
 
